@@ -403,23 +403,31 @@ Definition hilbert_model (a : operand) : res :=
    abs(), conjugate(), real, imag, sign, simplify(), expand(), subs(), limit(), copy()
    and -x all rebuild self.__class__(<sympy value>, **assumptions): same class, and the
    DEFAULT units of the class (the operand's own units are not carried over) *)
-Definition rebuild_model (a : operand) : res :=
+Definition rebuild_default (a : operand) : res :=
   construct (Some (od a, oq a)) (is_undef_dom a) None.
-(* differentiate() / integrate() with respect to the domain variable: rebuild, then
-   units /= (resp. *=) the variable's units *)
+(* ... unless the method sets ret.units = self.units (keeps T op) *)
+Definition rebuild_model (op : unop) (a : operand) : res :=
+  construct (Some (od a, oq a)) (is_undef_dom a) (if keeps T op then Some (ou a) else None).
 (* the units of the variable object (symbols.py): the domain's units, except that the
    phasor domain (domain_units = 1) uses omega, in rad/s like the phasor-ratio domain *)
 Definition var_units (d : domain) : uvec :=
   match d with Dphasor => dom_units T Dphasor_ratio | _ => dom_units T d end.
+(* differentiate() / integrate() with respect to the domain variable: rebuild, then the
+   units (class default, or those of self) are divided resp. multiplied by the variable's *)
 Definition diff_model (a : operand) : res :=
-  construct (Some (od a, oq a)) (is_undef_dom a) (Some (usub (def_units T (od a) (oq a)) (var_units (adom a)))).
+  construct (Some (od a, oq a)) (is_undef_dom a)
+            (Some (usub (if keeps T U_diff then ou a else def_units T (od a) (oq a)) (var_units (adom a)))).
 Definition integ_model (a : operand) : res :=
-  construct (Some (od a, oq a)) (is_undef_dom a) (Some (uadd (def_units T (od a) (oq a)) (var_units (adom a)))).
-(* convolve(): same domain required; class of self; units = product of the operand
-   units and of the variable's units *)
+  construct (Some (od a, oq a)) (is_undef_dom a)
+            (Some (uadd (if keeps T U_integ then ou a else def_units T (od a) (oq a)) (var_units (adom a)))).
+(* convolve(): same domain required; class of self - or of x when self is a transfer
+   function or a generic expression and x has a quantity (conv_by_operand); units =
+   product of the operand units and of the variable's units *)
 Definition convolve_model (a b : operand) : res :=
   if negb (same_dom a b) then RE ED
-  else construct (Some (od a, oq a)) (is_undef_dom a) (Some (uadd (uadd (ou a) (ou b)) (dom_units T (adom a)))).
+  else
+    let w := if conv_by_operand T && (qeqb (aq a) Qtransfer || qeqb (aq a) Qundef) && negb (qeqb (aq b) Qundef) then b else a in
+    construct (Some (od w, oq w)) (is_undef_dom a) (Some (uadd (uadd (ou a) (ou b)) (dom_units T (adom a)))).
 (* phase: a generic expression (of the phasor-ratio domain for a phasor, of the plain
    constant domain for the constant domains) in rad *)
 Definition u_rad := UV 0 0 0 1.
@@ -430,12 +438,12 @@ Definition phase_model (a : operand) : res :=
    the domain that expr() infers from the symbols; or, when Expr.magnitude rebuilds its
    own class (mag_real_keeps), the same class *)
 Definition magnitude_real_model (a : operand) : res :=
-  if mag_real_keeps T then rebuild_model a
+  if mag_real_keeps T then rebuild_default a
   else construct (Some (symbol_domain a, Qundef)) false None.
 (* x ** k for a number k other than 2 and -1: self.__class__(result), or the class of
    the exponent (a constant-domain generic expression) when self is of a constant domain *)
 Definition pow_general_model (a : operand) : res :=
-  if is_const a then RK Dconstant Qundef (def_units T Dconstant Qundef) else rebuild_model a.
+  if is_const a then RK Dconstant Qundef (def_units T Dconstant Qundef) else rebuild_default a.
 
 (* ---- domain transforms between the time domain and the Laplace / Fourier / angular
         Fourier domains (TimeDomainExpression.LT / FT, LaplaceDomainExpression.ILT,
